@@ -5,9 +5,11 @@
    Shape of every multinode Submit<Kind>:
      guard (empty payload => error at once, nobody contacted);
      sem := NewWeighted(processConcurrency); flag := false; cond;
-     one goroutine per configured node:  sem.Acquire; serviceInfo; submit the WHOLE payload
+     one goroutine per configured node:  sem.Acquire; serviceInfo (a NodeVersion request to that
+        node, made and awaited inside the node's own goroutine); submit the WHOLE payload
         (attestations: through util.Scatter, i.e. one concurrent call per extent);
-        classify the error (attestations, sync messages, sync contributions only);
+        classify the error (attestations, sync messages, sync contributions only; the classifier
+        calls serviceInfo again, i.e. a second NodeVersion request to that node);
         on success: flag := true; cond.Signal();
      one goroutine: Sleep(timeout); cond.Signal();
      cond.Wait(); success := flag.
@@ -82,8 +84,13 @@ Inductive reply := RAccept | RError (e : err_desc).
 Inductive beh := BReply (d : N) (r : reply) | BHang.
 
 (* A scripted node: a call whose payload contains item k of an override (k, b) behaves as b
-   (first such override in list order), any other call as the default. *)
-Record node := { n_client : client; n_default : beh; n_over : list (N * beh) }.
+   (first such override in list order), any other call as the default.
+   The node's version endpoint (helpers.go serviceInfo -> NodeVersion) has a latency of its own:
+   n_ver1 for the request made before the payload is submitted, n_ver2 for a request made after the
+   node has been handed the payload (the error classifiers'); Some d = answered after d ms,
+   None = never answered (blocks until the context ends). *)
+Record node := { n_client : client; n_default : beh; n_over : list (N * beh);
+                 n_ver1 : option N; n_ver2 : option N }.
 
 Record input := {
   i_kind : kind;
@@ -220,6 +227,32 @@ Fixpoint err_calls (bs : list beh) : list (N * err_desc) :=
   | _ :: bs' => err_calls bs'
   end.
 
+Definition oadd (a b : option N) : option N :=
+  match a, b with
+  | Some x, Some y => Some (x + y)
+  | _, _ => None
+  end.
+
+(* Does the node's goroutine ask the node for its version a second time?  Only the classifiers do:
+   submitattestations.go handleAttestationsError calls serviceInfo for every error (the one Scatter
+   kept); submitsynccommitteemessages.go and submitsynccommitteecontributions.go only once they
+   have found a '{' in the error text (every rendering but ShPlain has one); the five other kinds
+   have no classifier. *)
+Definition has_brace (e : err_desc) : bool := match e_shape e with ShPlain => false | _ => true end.
+
+Definition asks_again (k : kind) (bs : list beh) : bool :=
+  match k with
+  | KAttestations => match err_calls bs with [] => false | _ => true end
+  | KSyncMessages | KSyncContributions => existsb (fun p => has_brace (snd p)) (err_calls bs)
+  | _ => false
+  end.
+
+(* From the moment the node's goroutine holds its token to the moment it has classified the
+   node's answer (and releases the token): version request, the calls, for a rejection that is
+   classified the second version request.  None = never. *)
+Definition node_span (k : kind) (nd : node) (bs : list beh) : option N :=
+  oadd (n_ver1 nd) (oadd (node_dur bs) (if asks_again k bs then n_ver2 nd else Some 0)).
+
 Definition max_delay (l : list (N * err_desc)) : N := fold_right (fun p m => N.max (fst p) m) 0 l.
 
 Inductive verdict := VOk | VErr | VAny.
@@ -248,12 +281,6 @@ Definition ole (a b : option N) : bool :=
   | Some _, None => true
   | None, Some _ => false
   | None, None => true
-  end.
-
-Definition oadd (a b : option N) : option N :=
-  match a, b with
-  | Some x, Some y => Some (x + y)
-  | _, _ => None
   end.
 
 (* removes one minimal element *)
@@ -289,13 +316,14 @@ Fixpoint lookup_start (i : nat) (l : list (nat * option N)) : option N :=
 
 Record node_view := {
   v_start : option N;        (* when the node's goroutine got its token; None = never *)
-  v_calls : list (N * N);    (* the calls it received (all issued at v_start) *)
+  v_at : option N;           (* when it had the node's version and handed the payload over; None = never *)
+  v_calls : list (N * N);    (* the calls the node received (all issued at v_at) *)
   v_done : option N;         (* when its goroutine classified the result; None = never *)
   v_verdict : verdict        (* what it would store: VOk = flag set and Signal *)
 }.
 
 Definition node_durs (inp : input) : list (option N) :=
-  map (fun nd => node_dur (node_behs (i_kind inp) (i_len inp) (i_conc inp) nd)) (i_nodes inp).
+  map (fun nd => node_span (i_kind inp) nd (node_behs (i_kind inp) (i_len inp) (i_conc inp) nd)) (i_nodes inp).
 
 Definition starts (inp : input) (order : list nat) : list (nat * option N) :=
   let durs := node_durs inp in
@@ -304,9 +332,11 @@ Definition starts (inp : input) (order : list nat) : list (nat * option N) :=
 Definition view_of (inp : input) (sts : list (nat * option N)) (i : nat) (nd : node) : node_view :=
   let bs := node_behs (i_kind inp) (i_len inp) (i_conc inp) nd in
   let st := lookup_start i sts in
+  let at_ := oadd st (n_ver1 nd) in
   {| v_start := st;
-     v_calls := match st with Some _ => calls_of (i_kind inp) (i_len inp) (i_conc inp) | None => [] end;
-     v_done := oadd st (node_dur bs);
+     v_at := at_;
+     v_calls := match at_ with Some _ => calls_of (i_kind inp) (i_len inp) (i_conc inp) | None => [] end;
+     v_done := oadd st (node_span (i_kind inp) nd bs);
      v_verdict := node_verdict (i_kind inp) (n_client nd) bs |}.
 
 Definition views (inp : input) (order : list nat) : list node_view :=
@@ -354,7 +384,7 @@ Definition outcomes_of (T : N) (ts : list N) : list (bool * N) :=
 Definition outcomes (inp : input) (order : list nat) : list (bool * N) :=
   flat_map (outcomes_of (i_timeout inp)) (worlds (views inp order)).
 
-Definition idle_view : node_view := {| v_start := None; v_calls := []; v_done := None; v_verdict := VErr |}.
+Definition idle_view : node_view := {| v_start := None; v_at := None; v_calls := []; v_done := None; v_verdict := VErr |}.
 
 (* Submit<Kind>: what each node sees, and the possible (success, return time) pairs *)
 Definition run (inp : input) (order : list nat) : list node_view * list (bool * N) :=
